@@ -119,20 +119,22 @@ Proof. unfold c_tau. unfold_ops. apply Rmult_lt_0_compat; [apply IZR_lt; reflexi
 Theorem lpf_gen_range fc ts : 0 < fc -> 0 < ts -> 0 < lpf_gen R_ops fc ts < 1.
 Proof.
   intros Hf Ht. unfold lpf_gen. generalize c_1_tau_pos. generalize (c_1_tau R_ops). intros K HK. unfold_ops.
-  assert (Hq : 0 < K / fc) by (apply Rdiv_lt_0_compat; assumption).
+  assert (Hp : 0 < fc * ts) by (apply Rmult_lt_0_compat; assumption).
+  assert (Hq : 0 < K / (fc * ts)) by (apply Rdiv_lt_0_compat; assumption).
   split.
   - apply Rdiv_lt_0_compat; lra.
-  - apply Rmult_lt_reg_r with (r := K / fc + ts); [lra|].
+  - apply Rmult_lt_reg_r with (r := K / (fc * ts) + 1); [lra|].
     unfold Rdiv at 1. rewrite Rmult_assoc, Rinv_l by lra. lra.
 Qed.
 
 Theorem hpf_gen_range fc ts : 0 < fc -> 0 < ts -> 0 < hpf_gen R_ops fc ts < 1.
 Proof.
   intros Hf Ht. unfold hpf_gen. generalize c_tau_pos. generalize (c_tau R_ops). intros K HK. unfold_ops.
-  assert (Hp : 0 < K * fc * ts) by (repeat apply Rmult_lt_0_compat; assumption).
+  assert (Hp0 : 0 < fc * ts) by (apply Rmult_lt_0_compat; assumption).
+  assert (Hp : 0 < K * (fc * ts)) by (apply Rmult_lt_0_compat; assumption).
   split.
   - apply Rdiv_lt_0_compat; lra.
-  - apply Rmult_lt_reg_r with (r := K * fc * ts + 1); [lra|].
+  - apply Rmult_lt_reg_r with (r := K * (fc * ts) + 1); [lra|].
     unfold Rdiv. rewrite Rmult_assoc, Rinv_l by lra. lra.
 Qed.
 
